@@ -23,6 +23,11 @@ theorem popSrc_qe2 : ∀ x0 y0, QEL x0 y0 → QER srcRel (popSrc x0) (popSrc y0)
   exact ⟨qe_er_src h.1, qe_er_unify h.1, er2_of_er (qe_er_src h.1), qe_compareOp h.1, qe_genMode h.1⟩
 grind_pattern popSrc_qe2 => popSrc x0, popSrc y0
 
+/-- one step of `_parse_config_string`: `acc + "." + source` -/
+theorem er2_app3 {a a' b b' sep : String} (h1 : er2 a = er2 a') (h2 : er2 b = er2 b') : er2 (a ++ sep ++ b) = er2 (a' ++ sep ++ b') :=
+  er2_append (er2_append h1 rfl) h2
+grind_pattern er2_app3 => er2 (a ++ sep ++ b), er2 (a' ++ sep ++ b')
+
 theorem emptyCreate_qe (t t' : TableName) (b : Bool) (h : erTN t = erTN t') : erCR (emptyCreate t b) = erCR (emptyCreate t' b) := by
   simp [emptyCreate, erCR, h]
 grind_pattern emptyCreate_qe => emptyCreate t b, emptyCreate t' b
